@@ -414,6 +414,16 @@ def flat_items(g: G, thorough: bool) -> list:
                                                                                     (neg2, [g.cond()], blk(1))], blk(1) if nb else None))
     items.append(lambda: ("if", [(False, [g.cond()], blk(1)), (False, [g.cond()], blk(1)), (True, [g.cond()], blk(2))], blk(1)))
     items.append(lambda: ("if", [(False, [g.cond()], blk(1))], []))
+    # conditions of three and four || clauses, in the head and in an elseif; longer chains
+    for neg in (False, True):
+        for nh in (3, 4):
+            items.append(lambda neg=neg, nh=nh: ("if", [(neg, [g.cond() for _ in range(nh)], blk(1))], None))
+            items.append(lambda neg=neg, nh=nh: ("if", [(neg, [g.cond() for _ in range(nh)], blk(2))], blk(1)))
+            items.append(lambda neg=neg, nh=nh: ("if", [(False, [g.cond()], blk(1)), (neg, [g.cond() for _ in range(nh)], blk(1))], blk(1)))
+    items.append(lambda: ("if", [(False, [g.cond(), g.cond()], blk(1)), (True, [g.cond(), g.cond(), g.cond()], blk(2)), (False, [g.cond(), g.cond()], blk(0)),
+                                 (False, [g.cond()], blk(1))], blk(2)))
+    items.append(lambda: ("if", [(False, [g.cond()], blk(0)), (False, [g.cond()], blk(2))], blk(1)))
+    items.append(lambda: ("if", [(False, [g.cond()], blk(2)), (False, [g.cond()], blk(0)), (False, [g.cond()], blk(1))], None))
 
     def sw(ncases, grouped, default, dbody=1):
         def mk():
